@@ -44,6 +44,7 @@ func init() {
 			"C26.R4 cross-layer: conf.Cmd stored by the API code of a handler is a mode the handler is dispatched for (or at least as strict)",
 			"C26.R5 = C25.R4",
 			"C26.R6 TABLE: every command mode the API sets has a row in the permission table",
+			"C26.R7 MPT: validatePermissions reports success only through the comparison of /Perms with /P (or behind the revision test)",
 			"C26.R3 MPT: conf.Cmd is set on every path before the document is read",
 		},
 		Assumptions: []string{"the perm table's classification of commands is pdfcpu's own policy"},
